@@ -78,6 +78,27 @@ impl Property for C01 {
                 r3
             );
         }
+        // an accepted slice is mapped to a reference that lies inside it (and can be read in full)
+        if r2.is_ok() {
+            match lib(|| sh.from_bytes_extent(buf.as_ref())) {
+                Err(p) => vfail!("panic", "{}: reading as_bytes() of from_bytes({}) panicked: {}", name, cut(&img.bytes), p),
+                Ok(Err(e)) => vfail!("disagree", "{}: from_bytes({}) succeeds once and then fails with {}", name, cut(&img.bytes), show_err(&e)),
+                Ok(Ok((sov, abl, off))) => {
+                    if sov > n || off < 0 || off as usize + abl > n {
+                        vfail!(
+                            "outside",
+                            "{}: from_bytes of the {}-byte slice {} gives a reference of size_of_val {} whose as_bytes() covers [{}, {}): it reaches outside the slice",
+                            name,
+                            n,
+                            cut(&img.bytes),
+                            sov,
+                            off,
+                            off + abl as isize
+                        );
+                    }
+                }
+            }
+        }
         if buf.as_ref() != &img.bytes[..] {
             vfail!("modified", "{}: validation modified the slice {}", name, cut(&img.bytes));
         }
